@@ -181,3 +181,88 @@ Proof.
   - apply sx_eqb_sound in E. subst. eapply route_model_one_way; eassumption.
   - destruct (one_way_ok c obs); discriminate.
 Qed.
+
+(* ---- the acknowledgement's body ------------------------------------------------------------------------------- *)
+(* a 2xx answer whose body the plugin's response function rejects is a FAILED attempt (never a delivery, never a drop) *)
+Lemma classify_unreadable_ack :
+  forall k pr a, ok2xx (a_status a) = true -> body_ok k pr (a_body a) = false -> classify k pr a = ARetry.
+Proof.
+  intros k pr a O B. unfold classify. unfold body_ok in B.
+  destruct (k =? 0) eqn:K0.
+  - cbn [orb]. rewrite O. unfold body_ok. rewrite K0, B. reflexivity.
+  - destruct (k =? 2) eqn:K2; [|discriminate].
+    apply Z.eqb_eq in K2. subst k. cbn. rewrite O. unfold body_ok. cbn. rewrite B. reflexivity.
+Qed.
+
+Theorem route_unreadable_ack_is_failure :
+  forall c s a s',
+    split_on c = false -> next s = (a, s') ->
+    ok2xx (a_status a) = true -> body_ok (kind c) (presp c) (a_body a) = false ->
+    attempt c s = Some (ARetry, seen (kind c) (a_status a), s').
+Proof.
+  intros c s a s' S N O B. unfold attempt. rewrite S, N.
+  rewrite (classify_unreadable_ack _ _ _ O B). reflexivity.
+Qed.
+
+(* without process_response elasticsearch never looks at the body: only the status decides *)
+Theorem route_body_ignored_without_process_response :
+  forall a, classify 0 false a = classify 0 false (a_status a).
+Proof.
+  intros a. unfold classify, body_ok, a_status. cbn [Z.eqb orb negb].
+  rewrite Z.mod_mod by lia. reflexivity.
+Qed.
+
+(* a far end every answer of which is a failed attempt (e.g. always an unreadable acknowledgement): with retry >= 0 the batch
+   is given up after exactly retry + 2 calls, into the dead queue iff there is one — never delivered, never dropped *)
+Lemma batch_loop_const_failing :
+  forall c a, split_on c = false -> classify (kind c) (presp c) a = ARetry -> 0 <= retry c ->
+  forall n t0 fuel r,
+    Z.of_nat t0 + Z.of_nat n = retry c + 1 -> (n < fuel)%nat ->
+    batch_loop fuel c t0 (const_src a) r =
+      Some (if dq c then WDead else WErr, (t0 + n)%nat, (r + S n * seen (kind c) (a_status a))%nat, const_src a).
+Proof.
+  intros c a Hs C R0.
+  assert (A : attempt c (const_src a) = Some (ARetry, seen (kind c) (a_status a), const_src a)).
+  { unfold attempt. rewrite Hs. cbn [next const_src pre C09Route.tail]. rewrite C. reflexivity. }
+  induction n as [|n IH]; intros t0 fuel r E F.
+  - destruct fuel as [|f]; [lia|]. cbn [batch_loop]. rewrite A.
+    assert (G : (0 <=? retry c) && (retry c <? Z.of_nat t0) = true).
+    { apply andb_true_iff. split; [apply Z.leb_le|apply Z.ltb_lt]; lia. }
+    rewrite G. replace (t0 + 0)%nat with t0 by lia.
+    replace (1 * seen (kind c) (a_status a))%nat with (seen (kind c) (a_status a)) by (cbn [Nat.mul]; lia). reflexivity.
+  - destruct fuel as [|f]; [lia|]. cbn [batch_loop]. rewrite A.
+    assert (G : (0 <=? retry c) && (retry c <? Z.of_nat t0) = false).
+    { apply andb_false_iff. right. apply Z.ltb_ge. lia. }
+    rewrite G. rewrite (IH (S t0) f (r + seen (kind c) (a_status a))%nat) by lia.
+    replace (S t0 + n)%nat with (t0 + S n)%nat by lia.
+    replace (r + seen (kind c) (a_status a) + S n * seen (kind c) (a_status a))%nat
+      with (r + S (S n) * seen (kind c) (a_status a))%nat by (cbn [Nat.mul]; lia).
+    reflexivity.
+Qed.
+
+Theorem route_always_failing_given_up :
+  forall c a r,
+    split_on c = false -> classify (kind c) (presp c) a = ARetry -> 0 <= retry c ->
+    batch_loop (batch_fuel c (const_src a)) c 0 (const_src a) r =
+      Some (if dq c then WDead else WErr, Z.to_nat (retry c + 1),
+            (r + Z.to_nat (retry c + 2) * seen (kind c) (a_status a))%nat, const_src a).
+Proof.
+  intros c a r S C R.
+  rewrite (batch_loop_const_failing c a S C R (Z.to_nat (retry c + 1)) 0%nat).
+  - replace (Datatypes.S (Z.to_nat (retry c + 1))) with (Z.to_nat (retry c + 2)) by lia. reflexivity.
+  - lia.
+  - unfold batch_fuel. cbn [const_src pre length]. lia.
+Qed.
+
+(* the instance the new streams exercise: elasticsearch with process_response (or splunk) behind a far end that always
+   acknowledges with a body the plugin cannot read *)
+Corollary route_always_unreadable_given_up :
+  forall c a r,
+    split_on c = false -> ok2xx (a_status a) = true -> body_ok (kind c) (presp c) (a_body a) = false -> 0 <= retry c ->
+    exists n, batch_loop (batch_fuel c (const_src a)) c 0 (const_src a) r =
+      Some (if dq c then WDead else WErr, Z.to_nat (retry c + 1), n, const_src a).
+Proof.
+  intros c a r S O B R. eexists.
+  apply route_always_failing_given_up; [assumption| |assumption].
+  apply classify_unreadable_ack; assumption.
+Qed.
